@@ -695,7 +695,9 @@ fn execute_merge_with_rows_inner<S: GraphSnapshot>(
             let mut staged_filtered = filtered.as_ref().clone();
             // A leading OPTIONAL MATCH has no incoming rows to correlate with: its pattern
             // plan starts from its own scan and must run as it is.
-            if !matches!(outer.as_ref(), Plan::ReturnOne) {
+            if !matches!(outer.as_ref(), Plan::ReturnOne)
+                && !bind_outer_plan_rows(&mut staged_filtered, outer, &outer_rows)
+            {
                 bind_plan_input_rows(&mut staged_filtered, &outer_rows);
             }
             let filtered_rows =
@@ -1266,6 +1268,35 @@ fn execute_merge_with_rows_inner<S: GraphSnapshot>(
             let out_rows = execute_plan(snapshot, plan, params).collect::<Result<Vec<_>>>()?;
             Ok((0, out_rows))
         }
+    }
+}
+
+/// Replaces the occurrence of `outer` inside the pattern plan of an OPTIONAL MATCH (which was
+/// compiled on top of it, possibly several operators deep) by the rows already produced for
+/// it. Returns false if the plan does not contain `outer`.
+fn bind_outer_plan_rows(plan: &mut Plan, outer: &Plan, rows: &[Row]) -> bool {
+    if plan == outer {
+        *plan = Plan::Values {
+            rows: rows.to_vec(),
+        };
+        return true;
+    }
+    match plan {
+        Plan::MatchOut { input, .. }
+        | Plan::MatchOutVarLen { input, .. }
+        | Plan::MatchIn { input, .. }
+        | Plan::MatchUndirected { input, .. } => match input {
+            Some(inner) => bind_outer_plan_rows(inner, outer, rows),
+            None => false,
+        },
+        Plan::MatchBoundRel { input, .. }
+        | Plan::Filter { input, .. }
+        | Plan::Project { input, .. }
+        | Plan::Unwind { input, .. } => bind_outer_plan_rows(input, outer, rows),
+        Plan::CartesianProduct { left, right } => {
+            bind_outer_plan_rows(left, outer, rows) || bind_outer_plan_rows(right, outer, rows)
+        }
+        _ => false,
     }
 }
 
